@@ -62,7 +62,7 @@ Qed.
 
 Lemma get_citations_closed_eq : forall this_year s ra,
   get_citations_closed this_year s ra =
-  get_citations (engine_search U meta_table) refs_engine
+  get_citations (engine_search UM meta_table) refs_engine
                 (N.to_nat MAX_MATCH_CHARS) (N.to_nat BACKWARD_SEEK)
                 DT (Z.of_N highest_valid_year) this_year ed_of_gen src_of_gen is_valid_name is_space_gen
                 s (fst (tokenize_text s)) (snd (tokenize_text s)) ra.
@@ -74,8 +74,8 @@ Qed.
 Theorem closed_offsets : forall this_year s ra l,
   s <> s_eyecite ->
   toks_ok src_of_gen (fst (tokenize_text s)) ->
-  search_ok (engine_search U meta_table) ->
-  (forall w, engine_search U meta_table PPostShort w <> None) ->
+  search_ok (engine_search UM meta_table) ->
+  (forall w, engine_search UM meta_table PPostShort w <> None) ->
   get_citations_closed this_year s ra = Ok l ->
   Forall (offsets_ok s) l.
 Proof.
@@ -88,8 +88,8 @@ Qed.
 Theorem closed_metadata : forall this_year s l,
   s <> s_eyecite ->
   toks_ok src_of_gen (fst (tokenize_text s)) ->
-  search_ok (engine_search U meta_table) ->
-  defyear_ok (engine_search U meta_table) ->
+  search_ok (engine_search UM meta_table) ->
+  defyear_ok (engine_search UM meta_table) ->
   cits_nonempty (snd (tokenize_text s)) ->
   get_citations_closed this_year s false = Ok l ->
   Forall (meta_ok s l) l.
@@ -104,8 +104,8 @@ Qed.
 Theorem closed_metadata_ra : forall this_year s ra l,
   s <> s_eyecite ->
   toks_ok src_of_gen (fst (tokenize_text s)) ->
-  search_ok (engine_search U meta_table) ->
-  defyear_ok (engine_search U meta_table) ->
+  search_ok (engine_search UM meta_table) ->
+  defyear_ok (engine_search UM meta_table) ->
   cits_nonempty (snd (tokenize_text s)) ->
   get_citations_closed this_year s ra = Ok l ->
   exists l0,
